@@ -11,7 +11,7 @@
    correspondence; hard restrictions after a solve are decided by the oracle on the implementation. *)
 From Coq Require Import ZArith QArith Bool List Lia Ascii String.
 From DC Require Import Model.Base Model.Loc Model.Bio Model.Pattern Model.MSpace Model.Specs Model.Solver Model.Circular
-                       Proofs.SpecsDefs Proofs.PatternProofs Proofs.BioB Proofs.SpecsEval Proofs.CircularProofs Proofs.CircularAC.
+                       Proofs.SpecsDefs Proofs.PatternProofs Proofs.BioB Proofs.SpecsEval Proofs.CircularProofs Proofs.CircularAC Proofs.CircularEC.
 Import ListNotations.
 Open Scope Z_scope.
 
@@ -72,6 +72,20 @@ Theorem C13_avoid_changes_score_counts_edits : forall l tg me s e,
   score e = zq (me - zlen (filter (fun p => negb (nuc_eqb (fst p) (snd p))) (combine (extract l s) tg))).
 Proof. exact avoid_changes_score_counts_edits. Qed.
 Print Assumptions C13_avoid_changes_score_counts_edits.
+
+(* (v) the same for EnforceChanges (location or indices, minimum or amount): fix F24 *)
+Theorem C13_enforce_changes_keeps_its_meaning : forall l idx ref mn am full s,
+  0 <= lstart l -> lstart l <= lend l -> lend l <= zlen s -> indices_inside idx (zlen s) ->
+  circular_all_pass [SEnforceChanges l idx ref mn am full] s
+  = match eval_enforce_changes l idx ref mn am s with Some e => passes e | None => false end.
+Proof. exact enforce_changes_circular_iff_linear. Qed.
+Print Assumptions C13_enforce_changes_keeps_its_meaning.
+
+(* Non-vacuity: a whole-sequence EnforceChanges that must differ everywhere from "ACGT": one position kept fails *)
+Example C13_ex_changes :
+  circular_all_pass [SEnforceChanges (mkLoc 0 4 0) None (sq "ACGT"%string) (Some 4) None true] (sq "CATA"%string) = true
+  /\ circular_all_pass [SEnforceChanges (mkLoc 0 4 0) None (sq "ACGT"%string) (Some 4) None true] (sq "CAGA"%string) = false.
+Proof. vm_compute. split; reflexivity. Qed.
 
 (* Non-vacuity: two edits under an allowance of one are seen, whole-sequence location and indices at the origin *)
 Example C13_ex_allowance :
